@@ -29,6 +29,10 @@ CLAIMED = {
          "TLC checks the transcription of the save preparation against the sliver relation for every interval tier x span override x threshold of the "
          "grid universe; the same cases and random tiers on exact dyadic grids around the threshold are saved by the real code in all four formats, "
          "decoded by the TLA+ reader and judged by TLC."),
+ "C15": ("spec/MC_Query.tla (transcriptions of getNonEntries, timestamps, the getValueAtTime scan, getValuesInInterval) + spec/QueryProp.tla", "5 (C15)",
+         "TLC checks the query transcriptions against their definitions for every tier of the grid universe x small sample series and emits each "
+         "case for replay; random tiers/queries cover find (equality, substring, a closed regex family with case-insensitive semantics defined in the "
+         "spec), interval helpers, equality under single-field perturbations and validate() under injected corruptions (multi-tier textgrids)."),
  "C16": ("spec/MC_Audio.tla (edit mode) + spec/AudioImpl.tla + spec/AudioProp.tla + spec/Trace_Audio.tla", "5 (C16)",
          "TLC explores the audio state machine (recordings as sequences of distinct sample ids, every time on the quarter-sample grid, edit "
          "histories) checking the transcription of Wav's slice arithmetic against the list-of-samples relations; every transition is replayed on "
